@@ -55,12 +55,21 @@ CHECK_DEADLOCK FALSE
 """
 
 
+def _structure(raw):
+    """what the archive looks like to an independent reader: folders, packed streams, members"""
+    from ..refcodec import read_archive
+
+    p = read_archive(raw, None, strict=False, decode=False)
+    return [len(p.folders), sum(len(f.get("packsizes") or []) for f in p.folders), len(p.members)]
+
+
 def session(py7zr, names, via):
-    """one write session; returns the event list"""
+    """one write session; returns the event list.  A control session performs only the accepted calls: a rejected call must
+    leave no mark on the archive (same folders / packed streams / members / size)."""
     evs = []
     bio = io.BytesIO()
     z = py7zr.SevenZipFile(bio, "w", filters=[{"id": py7zr.FILTER_COPY}])
-    count = 0
+    accepted = []
     for s in names:
         before = len(z.files)
         exc = "none"
@@ -75,13 +84,25 @@ def session(py7zr, names, via):
             exc = type(e).__name__
         after = len(z.files)
         stored = abstract(z.files[after - 1].filename) if after > before else {"lead": 0, "comps": [], "trail": False}
+        if after > before:
+            accepted.append(s)
         evs.append({"e": via, "name": abstract(s), "str": s[:80], "before": before, "after": after, "exc": exc, "stored": stored})
-        count = after
     z.close()
+    cb = io.BytesIO()
+    with py7zr.SevenZipFile(cb, "w", filters=[{"id": py7zr.FILTER_COPY}]) as c:
+        for s in accepted:
+            if via == "writestr":
+                c.writestr(b"x", s)
+            else:
+                c.writef(io.BytesIO(b"y"), s)
+    try:
+        same = _structure(bio.getvalue()) == _structure(cb.getvalue())
+    except Exception:  # noqa
+        same = False
     bio.seek(0)
     with py7zr.SevenZipFile(bio, "r") as r:
         got = r.getnames()
-    evs.append({"e": "closed", "listed": len(got), "names": [abstract(g) for g in got]})
+    evs.append({"e": "closed", "listed": len(got), "names": [abstract(g) for g in got], "same": same})
     return evs
 
 
@@ -237,7 +258,7 @@ def _write_sessions(py7zr, R, tier, ev):
                     bio.seek(0)
                     with py7zr.SevenZipFile(bio, "r") as r:
                         got = r.getnames()
-                    evs.append({"e": "closed", "listed": len(got), "names": [abstract(g) for g in got]})
+                    evs.append({"e": "closed", "listed": len(got), "names": [abstract(g) for g in got], "same": True})
                     traces.append(evs)
                     ev.case(("write", use_all, s))
     finally:
